@@ -50,6 +50,10 @@ Flat(ops, j) ==
 Conforms(x) ==
   IF x.op \in {OpConstant, OpSpecConstant}
   THEN Len(x.ops) = 1 /\ x.ops[1].k \in {"LiteralBit32", "LiteralBit64"}
+  ELSE IF x.op = OpSwitch
+  THEN /\ Len(x.ops) >= 2 /\ Len(x.ops) % 2 = 0 /\ x.ops[1].k = "IdRef" /\ x.ops[2].k = "IdRef"
+       /\ \A j \in 2..(Len(x.ops) \div 2) : x.ops[2 * j - 1].k \in {"LiteralBit32", "LiteralBit64"} /\ x.ops[2 * j].k = "IdRef"
+       /\ \A j \in 2..(Len(x.ops) \div 2) : x.ops[2 * j - 1].k = x.ops[3].k
   ELSE LET enc == EncodeInst(x)  r == ParseInst(enc, 1, NoTypes) IN r.st = "ok" /\ r.inst = x
 
 ReturnsId(e) == Len(e.res) = 2
